@@ -29,7 +29,7 @@ COMPONENTS = {"real": ["EoN.Gillespie_simple_contagion", "EoN._ListDict_", "EoN.
 
 
 def plan(tier):
-    return [("walk", 700 if tier == "quick" else 40000)]
+    return [("walk", 1600 if tier == "quick" else 60000)]
 
 
 def run_one(family, rng, idx, tier):
